@@ -593,9 +593,12 @@ func firstLine(s string) string {
 
 func serveChild() {
 	// FindModule falls back to reading name.yang from the current directory: keep it empty
-	if dir, err := os.MkdirTemp("", "corr-c18-"); err == nil {
-		os.Chdir(dir)
-		defer os.RemoveAll(dir)
+	// (lib.RunIsolated starts the child in an empty directory of its own and removes it afterwards)
+	if os.Getenv("VERIF_CHILD_DIR") == "" {
+		if dir, err := os.MkdirTemp("", "corr-c18-"); err == nil {
+			os.Chdir(dir)
+			defer os.RemoveAll(dir)
+		}
 	}
 	lib.ChildLoop(func(in []byte) []byte {
 		var h History
